@@ -32,9 +32,30 @@ def main():
     try:
         mod = importlib.import_module(f"harness.{ns.pid.lower()}")
         mod.run(ctx)
-    except Exception:
-        status = "error"
+    except Exception as exc:
         err = traceback.format_exc()
+        status = "error"
+        # An exception raised from lerax's own code while a property scenario is being driven is a
+        # failure of the implementation on that scenario (the property says the call returns
+        # something), not of the machinery: report it as a Φ-failure with the traceback as replay.
+        # Exceptions whose innermost non-library frame is harness code stay machinery failures.
+        frames = [f for f in traceback.extract_tb(exc.__traceback__)
+                  if "site-packages" not in f.filename and not f.filename.startswith("<")]
+        deepest = frames[-1] if frames else None
+        verif_root = os.path.dirname(os.path.dirname(os.path.abspath(__file__)))
+        if (deepest is not None and "/lerax/" in deepest.filename
+                and not os.path.abspath(deepest.filename).startswith(verif_root)):
+            harness_frames = [f for f in frames if os.path.abspath(f.filename).startswith(verif_root)]
+            ctx.phi_fail(
+                "implementation_raised",
+                {"exception": type(exc).__name__, "message": str(exc)[:600],
+                 "raised_at": f"{deepest.filename}:{deepest.lineno} in {deepest.name}",
+                 "driven_from": (f"{harness_frames[-1].filename}:{harness_frames[-1].lineno} in "
+                                 f"{harness_frames[-1].name}") if harness_frames else None,
+                 "traceback_tail": err[-1500:]},
+                key=f"implementation_raised:{type(exc).__name__}")
+            status = "ok"
+            err = None
     finally:
         ctx.drv.close()
     res = ctx.result()
